@@ -192,6 +192,7 @@ func (w *worker) exec(c *mc.Ctx, cs Case) {
 		return
 	}
 	log := *lg
+	c.Distinct("outcomes", fmt.Sprintf("calls=%d|err=%v|closed=%v|out=%dB", len(log), res.Err, res.Closed, len(res.Out)))
 	// strict alternation starting with S
 	for i, e := range log {
 		want := byte('S')
